@@ -21,6 +21,9 @@ def main(c):
         # every session role: external, route-server client, internal, route-reflector client, confederation-external
         Cfg("w4", ["p1", "p2"], ["a1", "b1", "c1", "d1", "e1", "f1"], {"A": [0], "B": [0], "C": [0], "D": [0], "E": [0], "F": [0]},
             ["c1", "c2", "c4", "c8", "c9"], ["n1"], filt=(False,), ops=NO_DEFER),
+        # three route-server clients and an ordinary peer: the view shown to each client
+        Cfg("w5", ["p1", "p2"], ["d1", "g1", "h1", "a1"], {"D": [0], "G": [0], "H": [0], "A": [0]}, ["c1", "c3", "c4"], ["n1", "n2"],
+            filt=(False, True), ops=NO_DEFER),
     ]
     if thorough:
         design += [
